@@ -106,8 +106,16 @@ func (t *failTracker) FailNow() {
 
 // assertError calls f and makes sure the test fails if error is not accepted by f.
 // Some AssertErrorFunc can return false without reporting any failure (e.g. ErrorMatch if pattern does not match).
-func assertError(t TestingT, f AssertErrorFunc, err error, failInfo string) bool {
+// If f panics (e.g. Error method of err panics because err is nil pointer stored in error interface),
+// the panic is reported as failure of the test, it does not escape.
+func assertError(t TestingT, f AssertErrorFunc, err error, failInfo string) (accepted bool) {
 	ft := &failTracker{TestingT: t}
+	defer func() {
+		if r := recover(); r != nil {
+			assert.Fail(t, fmt.Sprintf("panic: %v\n%s", r, debug.Stack()), failInfo)
+			accepted = false
+		}
+	}()
 	if f(ft, err, failInfo) {
 		return true
 	}
